@@ -1445,7 +1445,8 @@ def gen_e2e(rng, tier):
 #     resp.  Z1 . to_matrix(before) . G^dagger . Z2^dagger  (gate of circuit 2), G = qiskit Operator of the single gate on the
 #     register, Z1 / Z2 the embedded zone products of the layer's pair updates
 #   * `e2e-lr-tie`: up to three layers per run through the driver's `lrlayer` request (`lrGateTensors`, `lrMul`, `lrLayer`):
-#     the matrix handed to every SVD of the layer, every kept rank, the tensors of the span afterwards; one `lrstack` per run
+#     the matrix handed to every SVD of the layer, every kept rank, the tensors of the span afterwards; one `lrblocks` per run (the merged blocks of the stacked chain `lrMul`
+#     = the recorded inputs of the first `apply_temporal_zone` of every non-hanging pair)
 #   * `e2e-lr-order` (oracle): to_matrix(final) = U1.U2^dagger with the order asserted, swapped call = U2.U1^dagger
 #   * `e2e-lr-verdict` / `e2e-lr-idtrace`: the scalar of `check_if_identity` = tr(U1^dagger U2); verdict around the overlap
 #   * spec ties (hypotheses of C04.40 / C04.41): `GateMpoOK` (to_matrix of gate.mpo_tensors = gate.tensor on the END sites of the
@@ -1650,7 +1651,7 @@ def run_e2e_lr(inp):
             g_full = unitary(n, [g["instr"]])
             dev2 = float(np.abs(np.kron(np.kron(np.eye(2**lo), embed_ends(g["tensor"], span)), np.eye(2 ** (n - hi - 1))) - g_full).max())
             ELR["gatempo_dev"] = max(ELR["gatempo_dev"], dev, dev2)
-            lossy = max(lossy, dev if dev > 1e-9 else 0.0)
+            lossy = max(lossy, dev if 1e-9 < dev <= 2e-6 else 0.0)   # only the documented cut of split_tensor loosens an oracle, never a larger deviation
             # split_tensor drops operator-Schmidt values <= 1e-6: a gate within 1e-6 of a product operator is represented to that accuracy only
             if dev > 2e-6 or dev2 > 1e-9:
                 ELR["gatempo_bad"] += 1
@@ -1732,23 +1733,18 @@ def run_e2e_lr(inp):
                     "sig": f"e2e-lr-tie:{n}:{name}:{span}:{int(c['conj'])}:{qs[0] < qs[1]}:" + "".join(str(t.shape[3]) for t in c["before"][lo:hi]),
                     "nontrivial": True})
     if tie_cands:
+        # the stacked chain `lrMul` itself: the block the real pair einsum + reshape hands to apply_temporal_zone (its recorded input), for
+        # every pair of the layer except the hanging one (whose left tensor is already re-compressed)
         li, c, g, steps = tie_cands[0]
         name, qs, ps = g["instr"]
         lo, hi = min(qs), max(qs)
-        gm = [np.transpose(np.conj(t), (1, 0, 2, 3)) for t in g["mpo"]] if c["conj"] else g["mpo"]
-        stacked = []
-        for k, t in enumerate(gm):                               # the reshaped einsums of the code, site by site, no SVD
-            w = c["before"][lo + k]
-            if c["conj"]:
-                th = oe.contract("abcd,cefg->febagd", np.transpose(t, (0, 2, 1, 3)), np.transpose(np.transpose(w, (1, 0, 2, 3)), (0, 2, 1, 3)))
-            else:
-                th = oe.contract("abcd,cefg->abefdg", np.transpose(t, (0, 2, 1, 3)), np.transpose(w, (0, 2, 1, 3)))
-            dd = th.shape
-            stacked.append(np.transpose(np.reshape(th, (dd[0], dd[1] * dd[2], dd[3], dd[4] * dd[5])), (0, 2, 1, 3)))
-        if sum(t.size for t in stacked) <= 4096:
-            out.append({"req": f"lrstack {2 if c['conj'] else 1} 2 {lo} {hi - lo + 1} {n} | " + " | ".join(site_tokens(t) for t in g["mpo"]) + " | "
-                        + " | ".join(site_tokens(t) for t in c["before"]), "impl": " | ".join(site_tokens(t) for t in stacked), "kind": "e2e-lr-stack",
-                        "oracle": None, "sig": f"e2e-lr-stack:{n}:{name}:{hi - lo + 1}:{int(c['conj'])}", "nontrivial": True})
+        span = hi - lo + 1
+        blocks = [za["theta"] for k, (m, za, zb, d) in enumerate(steps) if not (span % 2 == 1 and k == len(steps) - 1)]
+        if blocks and sum(b.size for b in blocks) <= 4096:
+            out.append({"req": f"lrblocks {2 if c['conj'] else 1} 2 {lo} {span} {n} | " + " | ".join(site_tokens(t) for t in g["mpo"]) + " | "
+                        + " | ".join(site_tokens(t) for t in c["before"]),
+                        "impl": " | ".join(" ".join(map(str, b.shape)) + " " + centries(b) for b in blocks), "kind": "e2e-lr-stack",
+                        "oracle": None, "sig": f"e2e-lr-stack:{n}:{name}:{span}:{int(c['conj'])}:{len(blocks)}", "nontrivial": True})
     # ---------------------------------------------------------------- the ORDER of the product, both argument orders
     final = mpo.to_matrix()
     ref = u1 @ u2.conj().T
@@ -1912,7 +1908,7 @@ if __name__ == "__main__":
                  "end to end with long-range gates (e2e-lr): random pairs with two-qubit gates and swaps at distance 2..5 in either orientation, in circuit 1, "
                  "circuit 2 or both, several in a row, on chains that already have bonds > 1, equivalent resynthesised pairs (n=3..6, thresholds 1e-13/1e-14): "
                  "event list vs iter, every real apply_long_range_layer recorded — up to three layers per run vs lrlayer (block handed to every SVD, kept ranks, "
-                 "tensors of the span), the stacked span vs lrstack, final chain vs idtrace; oracles: each layer = zones.(G.before | before.G^dagger), final = "
+                 "tensors of the span), the merged blocks of the stacked chain vs lrblocks, final chain vs idtrace; oracles: each layer = zones.(G.before | before.G^dagger), final = "
                  "U1.U2^dagger and swapped call = U2.U1^dagger, scalar = tr(U1^dagger U2) in both argument orders",
             trusted_base=["qiskit Operator (dense reference unitary) and numpy in the oracles",
                           "qiskit circuit_to_dag / layers / remove_op_node modelled as the wire-dependency front of an instruction list (trace-tied)",
